@@ -5,7 +5,8 @@
     iteration of [many1]).  External code reproduced here (trusted base): the chomp combinators,
     [u8::eq_ignore_ascii_case], [hex::decode], and [Ipv6Addr::from_str] restricted to strings of
     hex digits and colons (all that [ipv6_parser] passes to it).
-    [hexstring_parser] follows the repaired code: an odd number of digits is a parse error. *)
+    [hexstring_parser] follows the repaired code: an odd number of digits is a parse error;
+    [hostname_parser] follows the repaired code: a 62-byte label may end the name. *)
 
 From DV Require Import Model.Base Model.Parser Model.Header Model.Readers Model.Uncompress Model.Mutate Model.Gen.
 
@@ -212,7 +213,9 @@ Definition hn_pred (s : hn_state) (c : N) : hn_state * bool :=
       if negb (name_len =? 1) then (mk_hn ll name_len (hn_only_numeric s) true, false)
       else (mk_hn ll name_len false (hn_format_err s), true)
     else (mk_hn 0 name_len (hn_only_numeric s) (hn_format_err s), true)
-  else if 63 - 1 <=? ll then (mk_hn ll name_len (hn_only_numeric s) true, false)
+  else if (63 - 1 <=? ll) && ((c =? 95)%N || (c =? 45)%N || is_alpha c || is_digit c) then
+    (* repaired: only a further name character makes the label too long, not the terminator *)
+    (mk_hn ll name_len (hn_only_numeric s) true, false)
   else if ((c =? 95)%N && (ll =? 0)) || ((c =? 45)%N && (0 <? ll)) || is_alpha c then
     (mk_hn (ll + 1) name_len false (hn_format_err s), true)
   else if is_digit c then (mk_hn (ll + 1) name_len (hn_only_numeric s) (hn_format_err s), true)
